@@ -184,7 +184,9 @@ func readerInstance(file []byte, out *string) func(yield func()) {
 func c13Workloads() []*model.Content {
 	h := model.Headers[1]
 	return []*model.Content{
-		model.Fixed(h, model.Sch(model.S1), model.Chn(model.C1), model.Msg(1, 5, 40, 0), model.Met(model.D3), model.Msg(1, 3, 70, 0)),
+		// (every workload streams an attachment of its own - different sizes and bytes - through a plain
+		// io.Reader, so that any copy buffer shared between instances is in use by two of them at once)
+		model.Fixed(h, model.Sch(model.S1), model.Chn(model.C1), model.Msg(1, 5, 40, 0), model.Met(model.D3), model.Att(model.A2), model.Msg(1, 3, 70, 0)),
 		model.Fixed(h, model.Chn(model.C0), model.Msg(0, 2, 3, 0), model.Att(model.A1), model.Msg(0, 1, 80, 0)),
 		model.Fixed(model.Headers[0], model.Chn(model.C2Alt()), model.Msg(9, 7, 30, 0), model.Msg(9, 8, 30, 0), model.Met(model.D1)),
 	}
@@ -208,7 +210,7 @@ func c13CollidingWorkloads() []*model.Content {
 		return out
 	}
 	return []*model.Content{
-		model.Fixed(model.Headers[1], model.Sch(model.S1), model.Chn(model.C1), model.Msg(1, 5, 40, 0), model.Met(model.D3), model.Msg(1, 3, 70, 0)),
+		model.Fixed(model.Headers[1], model.Sch(model.S1), model.Chn(model.C1), model.Msg(1, 5, 40, 0), model.Met(model.D3), model.Att(model.A2), model.Msg(1, 3, 70, 0)),
 		model.Fixed(model.Headers[0], model.Chn(&ref.Channel{ID: 9, Topic: "t9", MessageEncoding: "q", Metadata: kv("x", "a", "m", "zz")}), model.Msg(9, 7, 30, 0), model.Att(model.A1),
 			model.Met(&ref.Metadata{Name: "other", Metadata: kv("q", "r", "s")}), model.Msg(9, 8, 3, 0)),
 		model.Fixed(model.Headers[1], model.Sch(model.S2), model.Chn(&ref.Channel{ID: 4, SchemaID: model.S2.ID, Topic: "t4", Metadata: kv("k1", "k0")}), model.Msg(4, 1, 80, 0), model.Msg(4, 2, 0, 0),
